@@ -168,7 +168,15 @@ class TypeModel(object):
                     rec["builder_call"] = st.value
         if rec["builder"] is None:
             raise AnalysisError("decorator %s: no `return _custom_*_builder(...)` in wrapper" % fi.id)
-        b = w.scope.lookup_local("_properties")
+        # the table is whatever local the wrapper hands to the builder as `properties` (name-independent)
+        from .callgraph import Target, get_callgraph
+        bound = get_callgraph(prog).bind(rec["builder_call"], Target(rec["builder"], "exact"))
+        pe = bound.params.get("properties")
+        b = None
+        if isinstance(pe, ast.Name):
+            cand = w.scope.lookup_local(pe.id)
+            if cand is not None and cand.kind == "assign":
+                b = cand
         if b is not None and b.value is not None:
             env = {}
             try:
